@@ -402,7 +402,8 @@ pub fn suite_reveal(out: &mut Out, tier: &str, rng: &mut Rng) {
     for nblk in [1usize, 2, 3] {
         let avail = nblk * 16 - 2; // payload octets available
         let fit = avail + 6;
-        let mut lens: Vec<u32> = vec![0, 1, 5, 6, 7, 8, fit as u32 - 1, fit as u32, fit as u32 + 1, fit as u32 + 16, 1023, 1024, 65535];
+        let mut lens: Vec<u32> = vec![0, 1, 2, 3, 4, 5, 6, 7, 8, fit as u32 - 2, fit as u32 - 1, fit as u32, fit as u32 + 1, fit as u32 + 2,
+                                      fit as u32 + 3, fit as u32 + 15, fit as u32 + 16, 1022, 1023, 1024, 65535];
         lens.dedup();
         for l in lens {
             for (ti, &t) in types.iter().enumerate() {
